@@ -117,6 +117,13 @@ func init() {
 	verifrt.OnInstall(func(w *verifrt.World) { w.FS = NewFS() })
 }
 
+// ResetDisk replaces the current world's disk with an empty one.
+func ResetDisk() *FS {
+	f := NewFS()
+	verifrt.W.FS = f
+	return f
+}
+
 // Disk returns the current world's simulated disk.
 func Disk() *FS { return verifrt.W.FS.(*FS) }
 
